@@ -116,7 +116,7 @@ FIELDS = {
     'Union': {'subcons': SubList(), '_subcons': Opaque(), 'parsefrom': Param('dyn')},
     'Select': {'subcons': SubList()},
     'IfThenElse': {'condfunc': Param('dyn'), 'thensubcon': Sub(), 'elsesubcon': Sub()},
-    'Switch': {'keyfunc': Param('dyn'), 'cases': Map('sub'), 'default': Sub()},
+    'Switch': {'keyfunc': Param('hashable'), 'cases': Map('sub'), 'default': Sub()},
     'StopIf': {'condfunc': Param('dyn')},
     'Padded': {'subcon': Sub(), 'length': Param('int'), 'pattern': Bytes1()},
     'Aligned': {'subcon': Sub(), 'modulus': Param('int'), 'pattern': Bytes1()},
@@ -132,10 +132,10 @@ FIELDS = {
     'FixedSized': {'subcon': Sub(), 'length': Param('int')},
     'NullTerminated': {'subcon': Sub(), 'term': BytesF(), 'include': Bool(), 'consume': Bool(), 'require': Bool()},
     'NullStripped': {'subcon': Sub(), 'pad': BytesF()},
-    'RestreamData': {'subcon': Sub(), 'datafunc': Param('dyn')},
+    'RestreamData': {'subcon': Sub(), 'datafunc': Param('restreamdata')},
     'Transformed': {'subcon': Sub(), 'decodefunc': Func('bytes'), 'decodeamount': F('intornone'), 'encodefunc': Func('bytes'), 'encodeamount': F('intornone')},
     'Restreamed': {'subcon': Sub(), 'decoder': Func('bytes'), 'decoderunit': Int(), 'encoder': Func('bytes'), 'encoderunit': Int(), 'sizecomputer': F('funcornone')},
-    'ProcessXor': {'subcon': Sub(), 'padfunc': Param('dyn')},
+    'ProcessXor': {'subcon': Sub(), 'padfunc': Param('xorpad')},
     'ProcessRotateLeft': {'subcon': Sub(), 'amount': Param('int'), 'group': Param('int')},
     'Checksum': {'checksumfield': Sub(), 'hashfunc': Func('dyn'), 'bytesfunc': Func('dyn')},
     'Lazy': {'subcon': Sub()},
@@ -272,12 +272,18 @@ def heap_frame(pre, post):
     return out
 
 
+# Terminated probes for end of stream by asking for one byte: getting none is its normal, documented outcome
+NO_SHORT_EXEMPT = {'Terminated'}
+
+
 def stream_frame(kind):
     def f(pre, post):
         out = []
         if 'stream' not in pre.args:
             return out
         a, b = pre.obj('stream'), post.obj('stream')
+        if a.model == 'adv' and pre.self.cls in NO_SHORT_EXEMPT:
+            return out
         if a.model == 'adv':
             out.append(('no-silent-short-io', t.implies(t.not_(a.extra['__short'].t), t.not_(b.extra['__short'].t)), ('C06',)))
         elif kind == 'parse':
@@ -334,6 +340,12 @@ def is_abstract(node):
     body = [n for n in node.body if not (isinstance(n, ast.Expr) and isinstance(n.value, ast.Constant))]
     return len(body) == 1 and isinstance(body[0], ast.Raise) and 'NotImplementedError' in ast.unparse(body[0])
 
+# value-domain preconditions of adapter hooks (what the sub-construct they wrap returns when validly parameterised)
+ADAPTER_REQUIRES = {
+    ('Enum', '_decode'): lambda pre: [('obj-is-int', t.app('isint', t.BOOL, pre['obj'].t))],
+    ('FlagsEnum', '_decode'): lambda pre: [('obj-is-int', t.app('isint', t.BOOL, pre['obj'].t))],
+}
+
 OUT_OF_SCOPE = {'Pickled', 'Numpy', 'NamedTuple', 'TimestampAdapter', 'Slicing', 'Indexing', 'CompressedLZ4', 'EncryptedSym',
                 'EncryptedSymAead', 'Rebuffered', 'ExprAdapter', 'ExprSymmetricAdapter', 'ExprValidator'}
 
@@ -355,6 +367,8 @@ def generic_contracts(src):
             c = FnContract(qual, generic_cases(kind, RESULT_KIND.get(cls) if m in ('_parse', '_parsereport') else None), setup=method_setup(cls), stream_models=('bytesio', 'adv') if kind in ('parse', 'build') else ('bytesio',),
                            tags=('C05', 'C06', 'C17', 'C18'))
             c.iface = dict(sub_seq=False, params_total=(kind != 'sizeof'))
+            if (cls, m) in ADAPTER_REQUIRES:
+                c.requires = ADAPTER_REQUIRES[(cls, m)]
             c.generic = True
             c.modifies_heap = True
             c.kind = kind
